@@ -63,25 +63,45 @@ def where_ok(r: RecV, nr: Int) -> Bool:
 
 
 @spec
-def rec_fail(r: RecV, nr: Int, has_where: Bool, has_sort: Bool) -> Bool:
+def row_of(r: RecV, nr: Int, variant: Int) -> RecV:
+    # select list shapes: 0 arbitrary expression list; 1  e1, *, e2  (star expands in place to the record's fields);
+    # 2  * EXCEPT a1, a3  (the record without fields 0 and 2)
+    if variant == 1:
+        return [H_E1(r, nr)] + r + [H_E2(r, nr)]
+    if variant == 2:
+        return except_spec(r, [0, 2], len(r))
+    return H_ELTS(r, nr)
+
+
+@spec
+def row_fail(r: RecV, nr: Int, variant: Int) -> Bool:
+    if variant == 1:
+        return H_E1_fail(r, nr) != 0 or H_E2_fail(r, nr) != 0
+    if variant == 2:
+        return False
+    return H_ELTS_fail(r, nr) != 0
+
+
+@spec
+def rec_fail(r: RecV, nr: Int, has_where: Bool, has_sort: Bool, variant: Int) -> Bool:
     # evaluating the query's expressions on record nr raises (WHERE first, then the select list, then the sort key)
     if has_where and H_WHERE_fail(r, nr) != 0:
         return True
     if has_where and not truthy(H_WHERE(r, nr)):
         return False
-    if H_ELTS_fail(r, nr) != 0:
+    if row_fail(r, nr, variant):
         return True
     return has_sort and H_SORTKEY_fail(r, nr) != 0
 
 
 @spec
-def sel_out(rows: Seq[RecV], n: Int, has_where: Bool) -> Seq[RecV]:
+def sel_out(rows: Seq[RecV], n: Int, has_where: Bool, variant: Int) -> Seq[RecV]:
     # the records offered to the writer for input records 1..n: one projected record per record passing WHERE
     if n <= 0:
         return []
     if has_where and not truthy(H_WHERE(rows[n - 1], n)):
-        return sel_out(rows, n - 1, has_where)
-    return sel_out(rows, n - 1, has_where) + [H_ELTS(rows[n - 1], n)]
+        return sel_out(rows, n - 1, has_where, variant)
+    return sel_out(rows, n - 1, has_where, variant) + [row_of(rows[n - 1], n, variant)]
 
 
 # ---------------------------------------------------------------- UNNEST
@@ -322,3 +342,84 @@ def upd_out(rows: Seq[RecV], n: Int, has_where: Bool) -> Seq[RecV]:
     if n <= 0:
         return []
     return upd_out(rows, n - 1, has_where) + [upd_row(rows[n - 1], n, nu_upto(rows, n - 1, has_where), has_where)]
+
+
+# ---------------------------------------------------------------- UPDATE ... JOIN (C04/C05)
+@spec(opaque=True)
+def H_JRHS1(r: RecV, nr: Int, b: RecV, bnr: Int, nu: Int) -> Cell:
+    raise NotImplementedError
+
+
+@spec(opaque=True)
+def H_JRHS1_fail(r: RecV, nr: Int, b: RecV, bnr: Int, nu: Int) -> Int:
+    raise NotImplementedError
+
+
+@spec(opaque=True)
+def H_JWHERE_B(r: RecV, nr: Int, b: RecV, bnr: Int) -> Cell:
+    raise NotImplementedError
+
+
+@spec(opaque=True)
+def H_JWHERE_B_fail(r: RecV, nr: Int, b: RecV, bnr: Int) -> Int:
+    raise NotImplementedError
+
+
+@spec
+def ujw_true(r: RecV, nr: Int, b: RecV, bnr: Int) -> Bool:
+    # the WHERE text of this variant is `X or Y` (lowest-precedence operator): it must be embedded as a unit
+    return truthy(H_JWHERE(r, nr, b, bnr)) or truthy(H_JWHERE_B(r, nr, b, bnr))
+
+
+@spec
+def ujw_fail(r: RecV, nr: Int, b: RecV, bnr: Int) -> Bool:
+    if H_JWHERE_fail(r, nr, b, bnr) != 0:
+        return True
+    return (not truthy(H_JWHERE(r, nr, b, bnr))) and H_JWHERE_B_fail(r, nr, b, bnr) != 0
+
+
+@spec
+def uj_updates(r: RecV, nr: Int, ms: Seq[Tuple[Opt[Int], Int, RecV]]) -> Bool:
+    # the record is updated iff it has exactly one partner and WHERE (seeing the pair) is truthy
+    return len(ms) == 1 and ujw_true(r, nr, ms[0][2], bnr_of(ms[0][0]))
+
+
+@spec
+def uj_nu(rows: Seq[RecV], n: Int, kind: Int, jm: Map[JKey, Seq[Tuple[Opt[Int], Int, RecV]]], nullw: Int) -> Int:
+    if n <= 0:
+        return 0
+    if uj_updates(rows[n - 1], n, jpairs_of(rows[n - 1], kind, jm, nullw)):
+        return uj_nu(rows, n - 1, kind, jm, nullw) + 1
+    return uj_nu(rows, n - 1, kind, jm, nullw)
+
+
+@spec
+def uj_row(r: RecV, nr: Int, ms: Seq[Tuple[Opt[Int], Int, RecV]], nu: Int) -> RecV:
+    # UPDATE a2 = e JOIN ...: no partner -> unchanged; one partner and WHERE -> a2 assigned; >1 partners is an error
+    if not uj_updates(r, nr, ms):
+        return r
+    return set_at(r, 1, H_JRHS1(r, nr, ms[0][2], bnr_of(ms[0][0]), nu + 1))
+
+
+@spec
+def uj_fail(r: RecV, nr: Int, kind: Int, jm: Map[JKey, Seq[Tuple[Opt[Int], Int, RecV]]], nullw: Int, nu: Int) -> Bool:
+    if len(r) < 1:
+        return True
+    if kind == 2 and len(jm[k1(r[0])]) != 1:
+        return True
+    if len(jpairs_of(r, kind, jm, nullw)) > 1:
+        return True
+    if len(jpairs_of(r, kind, jm, nullw)) != 1:
+        return False
+    if ujw_fail(r, nr, jpairs_of(r, kind, jm, nullw)[0][2], bnr_of(jpairs_of(r, kind, jm, nullw)[0][0])):
+        return True
+    if not ujw_true(r, nr, jpairs_of(r, kind, jm, nullw)[0][2], bnr_of(jpairs_of(r, kind, jm, nullw)[0][0])):
+        return False
+    return H_JRHS1_fail(r, nr, jpairs_of(r, kind, jm, nullw)[0][2], bnr_of(jpairs_of(r, kind, jm, nullw)[0][0]), nu + 1) != 0 or len(r) < 2
+
+
+@spec
+def uj_out(rows: Seq[RecV], n: Int, kind: Int, jm: Map[JKey, Seq[Tuple[Opt[Int], Int, RecV]]], nullw: Int) -> Seq[RecV]:
+    if n <= 0:
+        return []
+    return uj_out(rows, n - 1, kind, jm, nullw) + [uj_row(rows[n - 1], n, jpairs_of(rows[n - 1], kind, jm, nullw), uj_nu(rows, n - 1, kind, jm, nullw))]
